@@ -141,7 +141,24 @@ func c03Case(c *Ctx) {
 		if tc.Trials > 0 {
 			defer knobs(tc.Trials, tc.FailRate)()
 		}
+		fr := tc.frame()
 		tc.preCalls()
+		func() {
+			defer func() { recover() }()
+			tc.Rec.Entropy()
+			tc.Rec.SuccessProbability()
+			runGen(tc.Rec, nil)
+		}()
+		if msg := tc.frameChanged(fr); msg != "" {
+			c.Violate("call-modified-recipe-fields", msg, map[string]interface{}{"recipe": descChar(tc.Rec)})
+			return
+		}
+		// siblings sharing the backing array must still be what their own fields say
+		for _, sib := range tc.Siblings {
+			if !c03CheckAlphabet(c, sib, oracle.CharSemOf(sib)) {
+				return
+			}
+		}
 		if !c03CheckAlphabet(c, tc.Rec, sem) {
 			return
 		}
